@@ -328,6 +328,9 @@ def c13 (h : H) : List String :=
 
 /-! ### C20 — one record per RPC, under its tag, with its size -/
 
+/-- protocol prefix of a scenario method (`lecho` belongs to the protocol registered while running) -/
+def fullMeth (m : String) : String := if m == "lecho" then "late." ++ m else "p." ++ m
+
 def typeName (k : Kind) (ctype : Int) : String :=
   match k with
   | .call => "Call"
@@ -354,20 +357,24 @@ def c20 (h : H) : List String :=
   (List.range 2).flatMap fun ep =>
     let recs := records h ep
     -- expected tags on this endpoint
-    let client := (os.filter fun o => o.ep = ep).map fun o => typeName o.kind o.ctype ++ " p." ++ o.meth
+    let client := (os.filter fun o => o.ep = ep).map fun o => typeName o.kind o.ctype ++ " " ++ fullMeth o.meth
     let cancels := (writes h ep).filterMap fun (_, f) =>
       if f.kind == .cancel then some ("Cancel " ++ String.fromUTF8! ⟨f.meth.toArray⟩) else none
     let served := (invocations h).filterMap fun (_, ep', hd, _, n, _) =>
       if ep' ≠ ep then none else
       match os.find? (fun o => o.nonce = n), handlerEnd h ep' hd with
-      | some o, some _ => if isCallKind o.kind then some (typeName o.kind o.ctype ++ " p." ++ o.meth) else none
+      | some o, some _ => if isCallKind o.kind then some (typeName o.kind o.ctype ++ " " ++ fullMeth o.meth) else none
       | _, _ => none
-    let injected := h.filterMap fun e => match e with
+    let injected := (h.filterMap fun e => match e with
       | .inj ep' "nfcall" => if ep' = ep then some "Call p.nope" else none
-      | _ => none
+      | _ => none) ++
+      -- a call that raced the registration of its protocol and was answered "not found" is recorded by the server too
+      (os.filterMap fun o =>
+        let nf := match endOf h o.c with | some (_, .notfound, _) => true | _ => false
+        if decide (o.ep + ep = 1) && o.meth == "lecho" && nf then some "Call late.lecho" else none)
     -- an RPC whose argument cannot be encoded is never sent: whether it leaves a record is not specified
     let unsent := (os.filter fun o => o.ep = ep && h.any fun e => match e with | .badarg c => c == o.c | _ => false).map
-      fun o => typeName o.kind o.ctype ++ " p." ++ o.meth
+      fun o => typeName o.kind o.ctype ++ " " ++ fullMeth o.meth
     let expected := client ++ cancels ++ served ++ injected
     let tags := (expected ++ recs.map (·.1)).eraseDups
     ((tags.filter fun t => !unsent.contains t).filterMap fun t =>
@@ -384,7 +391,7 @@ def c20 (h : H) : List String :=
         match (writes h (1 - ep)).find? (fun (_, f) => f.kind == .resp && f.seq = rf.seq) with
         | none => none
         | some (_, pf) =>
-          let t := typeName o.kind o.ctype ++ " p." ++ o.meth
+          let t := typeName o.kind o.ctype ++ " " ++ fullMeth o.meth
           let sizes := (recs.filter fun (t', _) => t' == t).map (·.2)
           let dups := (h.filter fun e => match e with | .inj ep' "dupresp" => ep' == ep | _ => false).length
           if (List.range (dups + 1)).any (fun k => sizes.contains (rf.total + (k + 1) * pf.content)) then none
